@@ -1,11 +1,17 @@
 """C06 — seeded reproducibility; query-order independence in dyadic-tree mode.
 
-Replica experiments, all bit-exact:
+Replica experiments, all bit-exact (D added after an independently seeded change showed the gap: a process-global
+memo of per-node seeds keyed without pool_size):
  A  two objects, identical arguments, the same op stream, *independent* cache-fault plans -> identical answers
  B  dyadic mode (halfway_tree=True / BrownianTree): two objects, same entropy, *different* histories and fault
     plans, then a common probe set (on / off the tolerance grid, multi-piece, with U and A) -> identical answers
  C  a different entropy gives a different path
+ D  "depends only on the entropy and options": a replica evaluated in a *forked child process* (which never sees the
+    decoy) versus the same construction in the parent AFTER a decoy object with the same entropy but other options
+    (pool_size, Levy mode) has been built and queried over the same intervals -> identical answers. Catches state
+    shared between objects (module-level caches, class attributes).
 """
+import multiprocessing as mp
 import copy
 
 import torch
@@ -28,7 +34,7 @@ ASSUMPTIONS = ["torch.Generator/np.random.SeedSequence are deterministic functio
 REAL_VS_STUB = {"real": ["torchsde.BrownianInterval/BrownianTree/ReverseBrownian", "trampoline", "numpy SeedSequence",
                          "torch kernels"],
                 "stub": ["value cache wrapped by FaultyCache (forwarding), one independent plan per replica"]}
-PROBES = ("pairs_compared", "expA", "expB", "expB_histories_differ", "expB_trees_differ", "probe_offgrid", "probe_with_A",
+PROBES = ("pairs_compared", "expA", "expB", "expD", "expB_histories_differ", "expB_trees_differ", "probe_offgrid", "probe_with_A",
           "probe_with_U", "entropy_differs_checked", "tree_front", "reverse_front", "tiny_cache")
 STATE_MEASURE = "distinct pairs of final interval-tree shapes of the two replicas"
 
@@ -36,8 +42,11 @@ STATE_MEASURE = "distinct pairs of final interval-tree shapes of the two replica
 def gen_case(seed, tier, idx):
     st = Streams(seed)
     rc = st.get("config")
-    exp = "B" if rc.random() < 0.55 else "A"
-    if exp == "B":
+    x = rc.random()
+    exp = "B" if x < 0.5 else ("A" if x < 0.9 else "D")
+    if exp == "D":
+        cfg = bm.gen_config(rc, fronts=(("interval", 5), ("tree", 2)), halfway=(rc.random() < 0.6))
+    elif exp == "B":
         cfg = bm.gen_config(rc, fronts=(("interval", 5), ("tree", 2.5), ("reverse", 1.5)), halfway=True)
     else:
         cfg = bm.gen_config(rc, fronts=(("interval", 6), ("tree", 1.5), ("reverse", 1.5)))
@@ -47,6 +56,14 @@ def gen_case(seed, tier, idx):
     ro = st.get("ops")
     sizes = [0, 1, 3, 8, 20, 50] if tier == "quick" else [0, 1, 3, 8, 20, 50, 200]
     case = {"config": cfg, "exp": exp}
+    if exp == "D":
+        ops = bm.gen_ops(ro, cfg, dom, max(2, ro.choice([3, 8, 20, 50])))
+        bm.add_faults(st.get("faults"), ops, bm.gen_fault_rate(st.get("faults")))
+        decoy = {"pool_size": rc.choice([p for p in (4, 8, 24) if p != cfg["pool_size"]])}
+        if cfg["front"] == "interval" and rc.random() < 0.4:
+            decoy["levy"] = rc.choice([l for l in bm.LEVY if l != cfg["levy"]])
+        case.update(ops=ops, ops2=[], probes=[], decoy=decoy)
+        return case
     if exp == "A":
         ops = bm.gen_ops(ro, cfg, dom, max(2, ro.choice(sizes)))
         bm.apply_warm_rep(cfg, ops)
@@ -103,9 +120,105 @@ def _same(r1, r2, op, idx, where):
             raise Violation(f"replica_differs_{comp}", {"op": op, "where": where, "max_abs_diff": d}, idx)
 
 
+def _digests_alone(cfg, ops, conn):
+    """Child process: the object alone, no decoy. Sends the exact bits of every answer."""
+    try:
+        from ..core import tdig
+        st = Streams(1)
+        b = bm.build(cfg, st.get("entropy"), faults=False)
+        ex = bm.BMExec(b, EventLog(False))
+        out = []
+        for i, op in enumerate(ops):
+            r = _call(ex, op, i, None)
+            out.append({k: tdig(v) for k, v in r.items()})
+        conn.send(out)
+    except bm.CaseTooExpensive:
+        conn.send("truncated")
+    except BaseException as e:  # noqa
+        conn.send("error: " + repr(e)[:200])
+    finally:
+        conn.close()
+
+
+def _run_D(case, log, probes):
+    from ..core import tdig
+    cfg = case["config"]
+    ops = [o for o in case["ops"]]
+    ctx = mp.get_context("fork")
+    parent, child = ctx.Pipe(duplex=False)
+    p = ctx.Process(target=_digests_alone, args=(cfg, ops, child))
+    p.start()
+    child.close()
+    # parent: decoy first (same entropy, other options), queried over the same intervals
+    st = Streams(1)
+    dcfg = dict(cfg)
+    dcfg.update(case["decoy"])
+    decoy = bm.build(dcfg, st.get("entropy_decoy"), faults=False)
+    exd = bm.BMExec(decoy, log)
+    b1 = bm.build(cfg, st.get("entropy"))
+    e1 = bm.BMExec(b1, log)
+    mine = []
+    truncated = False
+    try:
+        for i, op in enumerate(ops):
+            o2 = dict(op)
+            if dcfg["levy"] == "none":
+                o2["U"] = o2["A"] = False
+            elif dcfg["levy"] == "space-time":
+                o2["A"] = False
+            _call(exd, o2, ("decoy", i), None)
+            r = _call(e1, op, i, op.get("faults"))
+            mine.append({k: tdig(v) for k, v in r.items()})
+    except bm.CaseTooExpensive:
+        truncated = True
+    ref = parent.recv() if parent.poll(600) else "error: child timeout"
+    p.join(10)
+    if p.is_alive():
+        p.kill()
+    parent.close()
+    if isinstance(ref, str):
+        if ref == "truncated" or truncated:
+            probes["truncated_designed_bound"] = 1
+            return b1, e1
+        from ..core import HarnessError
+        raise HarnessError("experiment D child: " + ref)
+    if truncated:
+        probes["truncated_designed_bound"] = 1
+        return b1, e1
+    for i, (a, b) in enumerate(zip(ref, mine)):
+        probes["pairs_compared"] += 1
+        if a != b:
+            comp = next(k for k in a if a[k] != b.get(k))
+            raise Violation(f"depends_on_other_objects_{comp}", {"op": ops[i], "decoy": case["decoy"]}, i)
+    return b1, e1
+
+
 def run_case(case, keep_log=False):
     cfg = case["config"]
     log = EventLog(keep_log)
+    if case["exp"] == "D":
+        probes = {k: 0 for k in PROBES}
+        probes["expD"] = 1
+        violation = None
+        b1 = e1 = None
+        try:
+            b1, e1 = _run_D(case, log, probes)
+        except bm.CaseTooExpensive:
+            probes["truncated_designed_bound"] = 1
+        except Violation as v:
+            violation = v.to_json()
+        cs = cfg["cache_size"]
+        if cs is not None and cs <= 3:
+            probes["tiny_cache"] = 1
+        fired = dict(b1.plan.fired) if b1 is not None and b1.cache is not None else {}
+        stats = {"faults": fired, "probes": probes,
+                 "counters": {"ops": 2 * len(case["ops"]), "queries": (e1.n_queries if e1 else 0) * 3,
+                              "sde_time": (e1.sde_time if e1 else 0.0) * 3},
+                 "states": []}
+        out = {"violation": violation, "digest": log.digest(), "stats": stats}
+        if keep_log:
+            out["log"] = log.records
+        return out
     st = Streams(1)
     b1 = bm.build(cfg, st.get("entropy"))
     b2 = bm.build(cfg, st.get("entropy2"))
@@ -197,8 +310,12 @@ def nontrivial(stats):
     return True
 
 
+def _case_lists(case):
+    return case
+
+
 def sample_of(case, stats):
-    return {"config": case["config"], "exp": case["exp"], "n_ops": len(case["ops"]), "n_ops2": len(case["ops2"]),
+    return {"config": case["config"], "exp": case["exp"], "decoy": case.get("decoy"), "n_ops": len(case["ops"]), "n_ops2": len(case["ops2"]),
             "n_probes": len(case["probes"]), "first_ops": case["ops"][:5], "first_probes": case["probes"][:5],
             "faults_fired": stats.get("faults"), "probes": stats.get("probes")}
 
